@@ -357,7 +357,7 @@ fn run_one(dir: &Path, seed: &Seed, bytes: &[u8], action: &str, opts: &[&str], e
 fn worker(seeds: &[Seed], muts: &[Mutant], k: usize, n: usize) {
     // warm-up in the parent: lazily initialised statics (regexes, tables) are then inherited by every forked child
     if let Some(s0) = seeds.get(0) { let _ = run_inproc(s0, &s0.bytes, "decompile", &[], &work_dir("c16").join("warm-xout")); }
-    let dir = work_dir("c16").join(format!("fw{}", k)); let _ = std::fs::create_dir_all(&dir);
+    let dir = work_dir("c16").join(format!("fw{}-{}", k, std::process::id())); let _ = std::fs::create_dir_all(&dir);
     let mut cnt = 0usize;
     for (i, m) in muts.iter().enumerate() {
         if i % n != k { continue; }
@@ -370,6 +370,7 @@ fn worker(seeds: &[Seed], muts: &[Mutant], k: usize, n: usize) {
         if !o.ok || m.kind == "seed" { println!("R\t{}\t{}\t{}\t{}\t{}", i, o.ok, o.class, o.detail.replace('\t', " ").replace('\n', " "), o.rc); }
     }
     println!("WDONE\t{}\t{}", k, cnt);
+    let _ = std::fs::remove_dir_all(&dir);
 }
 
 fn master(manifest: &str, seeds: &[Seed], muts: &[Mutant], budget: usize, tier: &str, nexec: usize, mode: &str) {
@@ -394,7 +395,7 @@ fn master(manifest: &str, seeds: &[Seed], muts: &[Mutant], budget: usize, tier: 
     if workers_ok != nw || done != muts.len() { println!("HARNESS-ERROR\tworkers finished {}/{} with {} of {} mutants", workers_ok, nw, done, muts.len()); }
     res.sort_by_key(|r| r.0);
     let release = mode.contains("release");
-    let dir = work_dir("c16").join("exec"); let _ = std::fs::create_dir_all(&dir);
+    let dir = work_dir("c16").join(format!("exec-{}", std::process::id())); let _ = std::fs::create_dir_all(&dir);
     // a timeout has to reproduce through the real binary, alone, before it is reported
     let mut dropped = 0;
     res.retain(|(i, o)| {
@@ -415,8 +416,9 @@ fn master(manifest: &str, seeds: &[Seed], muts: &[Mutant], budget: usize, tier: 
     let (mut agree, mut disagree) = (0, 0);
     for (i, _) in &confirm {
         let m = &muts[*i];
-        let o = run_one(&dir, &seeds[m.seed], &m.bytes, m.action, &m.opts, Some(release));
+        let mut o = run_one(&dir, &seeds[m.seed], &m.bytes, m.action, &m.opts, Some(release));
         let expect = failing.get(i).cloned().unwrap_or_else(|| "pass".into());
+        if (if o.ok { "pass".to_string() } else { o.class.clone() }) != expect { o = run_one(&dir, &seeds[m.seed], &m.bytes, m.action, &m.opts, Some(release)); }   // once more before calling it a disagreement
         let got = if o.ok { "pass".to_string() } else { o.class.clone() };
         if expect == got { agree += 1; } else {
             disagree += 1;
@@ -424,6 +426,7 @@ fn master(manifest: &str, seeds: &[Seed], muts: &[Mutant], budget: usize, tier: 
         }
     }
     println!("STATS\t{}-exec\tconfirmed_through_truth-cli={}\tdisagreements={}", mode, agree, disagree);
+    let _ = std::fs::remove_dir_all(&dir);
 }
 
 fn report(seeds: &[Seed], muts: &[Mutant], res: &[(usize, Outcome)], mode: &str) {
@@ -623,7 +626,7 @@ fn lib_worker(seeds: &[Seed], muts: &[Mutant], k: usize, n: usize) {
     truth::setup_for_test_harness();
     // warm-up in the parent: lazily initialised statics (regexes, tables) are then inherited by every forked child
     if let Some(s0) = seeds.get(0) { let _ = run_inproc(s0, &s0.bytes, "decompile", &[], &work_dir("c16").join("warm-xout")); }
-    let dir = work_dir("c16").join(format!("lw{}", k)); let _ = std::fs::create_dir_all(&dir);
+    let dir = work_dir("c16").join(format!("lw{}-{}", k, std::process::id())); let _ = std::fs::create_dir_all(&dir);
     let mine: Vec<usize> = (0..muts.len()).filter(|i| i % n == k).collect();
     let mut cnt = 0usize;
     for chunk in mine.chunks(64) {
@@ -655,7 +658,7 @@ fn lib_master(manifest: &str, seeds: &[Seed], muts: &[Mutant], budget: usize, ti
     if workers_ok != nw || done != muts.len() { println!("HARNESS-ERROR\tlibrary workers finished {}/{} with {} of {} mutants", workers_ok, nw, done, muts.len()); }
     res.sort_by_key(|r| r.0);
     // every failure class of the library run is taken to the command line (first two examples): the class reported is the CLI's when it fails too
-    let dir = work_dir("c16").join("exec"); let _ = std::fs::create_dir_all(&dir);
+    let dir = work_dir("c16").join(format!("exec-{}", std::process::id())); let _ = std::fs::create_dir_all(&dir);
     let mut per_class: BTreeMap<String, usize> = BTreeMap::new();
     let mut confirmed = 0; let mut lib_only = 0;
     for (i, o) in res.iter_mut() {
@@ -889,7 +892,7 @@ fn main() {
             let action: &'static str = if args[5] == "extract" { "extract" } else { "decompile" };
             let opts_owned = split(&args[6]);
             let opts: Vec<&'static str> = DECOMP_OPTS.iter().flat_map(|o| o.iter()).filter(|o| opts_owned.iter().any(|x| x == *o)).cloned().collect::<std::collections::BTreeSet<_>>().into_iter().collect();
-            let dir = work_dir("c16").join("replay"); let _ = std::fs::create_dir_all(&dir);
+            let dir = work_dir("c16").join(format!("replay-{}", std::process::id())); let _ = std::fs::create_dir_all(&dir);
             let m = Mutant { seed: 0, kind: "replay", desc: "replay".into(), bytes: bytes.clone(), opts: opts.clone(), action };
             let o = run_one(&dir, &seed, &bytes, action, &opts, None);
             report(&[seed.clone()], &[m.clone()], &[(0, o)], "cli");
